@@ -205,7 +205,7 @@ class Registry(object):
     return None
 
   PSEUDO = ('regex', 'logger', 'lock', 'rlock', 'event', 'thread', 'object', 'file', 'match', 'condition', 'queue',
-            'transport', 'usb', 'CONF', 'tempfile', 'timeout', 'stringio')
+            'transport', 'usb', 'CONF', 'tempfile', 'timeout', 'stringio', 'colorama')
 
   def class_named(self, name):
     if name in self.PSEUDO:
